@@ -171,6 +171,24 @@ def RefsWF (R : Registry) : Prop :=
       (isBare (localName r u.arg) = true ∨
         ((∀ x ∈ inner ++ [r.stmt], declares x (localName r u.arg) = none) ∧ (importsFor r (localName r u.arg)).length ≤ 1)))
 
+/-- Greatest number of substatements of a statement of the list. -/
+def maxSubs : List Stmt → Nat
+  | [] => 0
+  | s :: l => max s.subs.length (maxSubs l)
+
+/-- Fuel that every `ToEntry` call of `processAll` has to spare (the model's `entryFuel` exceeds
+the proved bound `entryNeed` by at least this much). -/
+def lookupSlack (R : Registry) : Nat := R.mods.foldl (fun a m => a + stmtCount m.stmt) 0 + 66
+
+/-- The model's grouping lookup is not cut short by its fuel (`findGrouping` gets `2 * fuel + 16`
+where `fuel` is what the calling `toEntry` has left): a size condition on the registry — nesting
+depth of a `uses` plus (loaded modules + 2) × (widest module statement + 3) against twice the
+number of loaded statements + 148.  It holds unless a few modules are extremely wide compared with
+the total size. -/
+def LookupFuelOK (R : Registry) : Prop :=
+  ∀ r ∈ R.mods, ∀ (u : Stmt) (inner : List Stmt), Chain r.stmt (u :: inner ++ [r.stmt]) →
+    inner.length + 1 + (R.mods.length + 2) * (maxSubs (r.stmt :: R.mods.map (·.stmt)) + 3) ≤ 2 * lookupSlack R + 16
+
 /-! ### the plugged layers -/
 
 /-- What the theorem needs of the plugged layers: no errors of the identity and typedef stages on
